@@ -159,6 +159,21 @@ func genManyContours(r *simrt.Rand, l latticeCfg) *Shape {
 	return sh
 }
 
+// genBigPolygon: ONE flat contour with 31-90 vertices (regular-ish star/zigzag ring on the lattice
+// scale): code paths that treat "large" subpaths differently get one.
+func genBigPolygon(r *simrt.Rand, l latticeCfg) *Shape {
+	n := 31 + r.Intn(60)
+	cx, cy := l.coord(r)+l.cell, l.coord(r)+l.cell
+	r0 := (2 + float64(r.Intn(3))) * l.cell
+	pts := make([][2]float64, n)
+	for i := range pts {
+		a := 2 * math.Pi * float64(i) / float64(n)
+		rad := r0 * (0.6 + 0.4*float64((i*7+r.Intn(2))%3)/2)
+		pts[i] = [2]float64{cx + rad*math.Cos(a), cy + rad*math.Sin(a)}
+	}
+	return &Shape{Family: "bigpolygon", Segs: polygon(pts, r.Bool(0.85))}
+}
+
 func genShape(r *simrt.Rand, l latticeCfg) *Shape {
 	switch x := r.Intn(100); {
 	case x < 35:
@@ -169,8 +184,10 @@ func genShape(r *simrt.Rand, l latticeCfg) *Shape {
 		return genStar(r, l)
 	case x < 80:
 		return genCircle(r, l)
-	case x < 90:
+	case x < 88:
 		return genBlob(r, l)
+	case x < 93:
+		return genBigPolygon(r, l)
 	default:
 		return genPolyline(r, l)
 	}
@@ -377,6 +394,9 @@ func genTextStep(r *simrt.Rand, nfonts int, colW float64) Step {
 }
 
 func genFontStep(r *simrt.Rand, nfonts int) Step {
+	if r.Bool(0.25) {
+		return Step{Op: "familyface", Size: []float64{9, 12}[r.Intn(2)], Style: r.Intn(4), Variant: r.Intn(3), Repeat: r.Bool(0.3)}
+	}
 	return Step{Op: []string{"loadfont", "loadfont", "loadfontfile", "fontfamily", "systemfont", "loadmissing"}[r.Intn(6)], Font: r.Intn(nfonts), Style: r.Intn(4)}
 }
 
@@ -417,8 +437,8 @@ func genDrawing(r *simrt.Rand, l latticeCfg, nfonts int) *Drawing {
 		} else {
 			it.Kind = "path"
 			it.Shape = genShape(r, l)
-			if r.Bool(0.35) {
-				it.Paint = 1 + r.Intn(4)
+			if r.Bool(0.4) {
+				it.Paint = 1 + r.Intn(8) // 5-8: paint objects shared by all canvases of the run
 			}
 			if r.Bool(0.6) {
 				it.SW = []float64{0.2, 0.5, 1.5}[r.Intn(3)]
@@ -612,8 +632,15 @@ func GenRun(verifSeed uint64, run int, tier string, profiles []string) *RunSpec 
 				}
 			}
 			switch st.Op {
-			case "and", "or", "xor", "not", "div", "settle", "stroke", "offset", "flatten", "dash":
+			case "and", "or", "xor", "not", "div", "settle", "stroke", "offset", "dash":
+				if !st.AsPaths && s > 0 && wl.Bool(0.3) {
+					st.ChainA = true // the subject is what this task's previous call returned
+				}
 				if !st.AsPaths && wl.Bool(0.15) {
+					st.Repeat = true
+				}
+			case "flatten":
+				if wl.Bool(0.15) {
 					st.Repeat = true
 				}
 			case "richtext":
